@@ -102,6 +102,9 @@ var allSubs = event.Subscription(63)
 func NewSys(name string, p *Plan) *Sys {
 	cfg := ecs.NewConfig().WithCapacityIncrement(p.CapInc).WithRelationCapacityIncrement(p.RelCapInc)
 	w := ecs.NewWorld(cfg)
+	if p.CapInc == 128 && p.RelCapInc == 0 {
+		w = ecs.NewWorld() // the default configuration, spelled the way most users do
+	}
 	s := &Sys{Name: name, W: &w, cfg: cfg, specs: p.Types, idxOfID: map[uint8]int{}}
 	ptrSeq := 0
 	for k, t := range p.Types {
